@@ -88,7 +88,13 @@ class PROP(E2E):
                 rsp = mb.matching_rsp(rng, req)
                 if mb.spec_rsp_size(rsp) > 253:
                     req, rsp = ("RHR", 1, 1), ("RHR", [7])
-                ops.append(cligen.call_op(req, R="d" + cligen.frame(proto, i, slave, mb.spec_rsp_pdu(rsp)).hex(), typed=rng.random() < 0.4))
+                nlast = i == 0 or rng.random() < 0.75
+                if not nlast and mb.spec_req_size(req) > 3:
+                    # the transport interrupts this write once (EINTR) after a few bytes: the call fails, the rest of the frame goes out with
+                    # the next call -- every request still reaches the wire exactly once
+                    ops.append(cligen.call_op(req, W="a%d,e:Interrupted" % rng.randrange(1, 4), typed=rng.random() < 0.4))
+                else:
+                    ops.append(cligen.call_op(req, R="d" + cligen.frame(proto, i, slave, mb.spec_rsp_pdu(rsp)).hex(), typed=rng.random() < 0.4))
                 want.append(cligen.frame(proto, i, slave, mb.spec_req_pdu(req)).hex())
             poll.append(Case(cligen.cli_line(proto, slave0, ops), {"stage": "poll", "want": want, "proto": proto}))
         step = max(1, len(cs) // (len(poll) + 1))
@@ -103,9 +109,14 @@ class PROP(E2E):
             return "panic"
         if st == "poll":
             ws = [cligen.res_and_w(x)[1].hex() for x in cligen.split_results(c.impl) if x != "ok"]
-            for i, (got, want) in enumerate(zip(ws + [""] * len(m["want"]), m["want"])):
-                if got != want:
-                    return "polling several devices over one client: request %d went out as %s, the frame for the id selected at that moment is %s" % (i + 1, got[:60], want[:60])
+            got_all, want_all = "".join(ws), "".join(m["want"])
+            if not want_all.startswith(got_all):
+                pos, i = 0, 0
+                for i, w in enumerate(m["want"]):
+                    if got_all[pos:pos + len(w)] != w:
+                        break
+                    pos += len(w)
+                return "polling several devices over one client: what went out from request %d on is %s..., the frame for that request under the id selected at that moment is %s" % (i + 1, got_all[pos:pos + 60], m["want"][i][:60])
             return None
         if st == "own":
             t = c.line.split(" ")
